@@ -51,6 +51,7 @@ extern "C" {
 #endif
 extern long yaep_verif_get (int what);
 extern void yaep_verif_set (int what, long value);
+extern long yaep_verif_stat (int what);
 #ifdef __cplusplus
 }
 #endif
@@ -600,6 +601,11 @@ static void run_case (void)
 	  G_FREE (slots[s]); slots[s] = NULL;
 	  fprintf (out, "{\"op\":\"freeg\"}");
 	}
+      else if (strcmp (t, "FREEG0IFANY") == 0)
+	{
+	  if (slots[0] != NULL) { G_FREE (slots[0]); slots[0] = NULL; }
+	  fprintf (out, "{\"op\":\"freeg\"}");
+	}
       else if (strcmp (t, "ERR") == 0)
 	{
 	  int s = (int) next_int ();
@@ -608,7 +614,8 @@ static void run_case (void)
       else if (strcmp (t, "FAILAT") == 0)
 	{
 	  long k = next_int ();
-	  yv_fail_at = k < 0 ? -1 : yv_n_allocs + k; yv_fail_seen = 0;
+	  yv_fail_at = k < 0 ? -1 : yv_n_allocs + k;
+	  if (k >= 0) yv_fail_seen = 0;
 	  fprintf (out, "{\"op\":\"failat\"}");
 	}
       else if (strcmp (t, "COUNTERS") == 0)
@@ -618,7 +625,8 @@ static void run_case (void)
 	  fprintf (out, ",\"searches\":%d,\"collisions\":%d", get_all_searches (), get_all_collisions ());
 #endif
 #ifdef YAEP_VERIF
-	  { int w; fprintf (out, ",\"verif\":["); for (w = 0; w < 8; w++) fprintf (out, "%s%ld", w ? "," : "", yaep_verif_get (w)); fputc (']', out); }
+	  { int w; fprintf (out, ",\"verif\":["); for (w = 0; w < 8; w++) fprintf (out, "%s%ld", w ? "," : "", yaep_verif_get (w)); fputc (']', out);
+	    fprintf (out, ",\"stat\":["); for (w = 0; w < 8; w++) fprintf (out, "%s%ld", w ? "," : "", yaep_verif_stat (w)); fputc (']', out); }
 #endif
 	  fputc ('}', out);
 	}
@@ -780,6 +788,7 @@ int main (int argc, char **argv)
 	  if (in_case)
 	    {
 	      /* the worker died (or was killed by the watchdog) inside this case */
+	      if (ops) { size_t l = strlen (ops); while (l > 0 && ops[l - 1] == ',') ops[--l] = 0; }
 	      printf ("{\"id\":"); { FILE *sv = out; out = stdout; jstr (cur_id); out = sv; }
 	      printf (",\"ops\":[%s]", ops ? ops : "");
 	      if (WIFSIGNALED (status)) printf (",\"abort\":\"signal %d\"", WTERMSIG (status));
